@@ -8,6 +8,7 @@
 //
 //	incdec     i++ / i-- become i += 1 / i -= 1
 //	neg-if     if c { A } else { B } becomes if !(c) { B } else { A } (no else-if chains)
+//	switch-if  a small tagged switch becomes an if / else-if chain
 //	demorgan   !(a) introduced: a && b becomes !(!(a) || !(b)) for boolean conditions of if statements
 package main
 
@@ -61,6 +62,68 @@ func main() {
 								blk.List[k] = &ast.AssignStmt{Lhs: []ast.Expr{id.X}, Tok: tok, Rhs: []ast.Expr{&ast.BasicLit{Kind: token.INT, Value: "1"}}}
 								n++
 							}
+						}
+					}
+				case "switch-if":
+					// a small tagged switch (no init, no fallthrough, at most four clauses) becomes an if chain
+					if blk, ok := node.(*ast.BlockStmt); ok {
+						for k, st := range blk.List {
+							sw, ok := st.(*ast.SwitchStmt)
+							if !ok || sw.Init != nil || sw.Tag == nil || len(sw.Body.List) > 4 || len(sw.Body.List) == 0 {
+								continue
+							}
+							if _, isCall := sw.Tag.(*ast.CallExpr); isCall {
+								continue // evaluate the tag once only
+							}
+							okSw := true
+							var chain, last *ast.IfStmt
+							var deflt *ast.BlockStmt
+							for _, cl := range sw.Body.List {
+								cc := cl.(*ast.CaseClause)
+								for _, b := range cc.Body {
+									if br, ok := b.(*ast.BranchStmt); ok && (br.Tok == token.FALLTHROUGH || br.Tok == token.BREAK) {
+										okSw = false
+									}
+									ast.Inspect(b, func(m ast.Node) bool {
+										if br, ok := m.(*ast.BranchStmt); ok && br.Tok == token.BREAK && br.Label == nil {
+											okSw = false
+										}
+										return true
+									})
+								}
+								if cc.List == nil {
+									deflt = &ast.BlockStmt{List: cc.Body}
+									continue
+								}
+								var cond ast.Expr
+								for _, e := range cc.List {
+									eq := &ast.BinaryExpr{X: sw.Tag, Op: token.EQL, Y: e}
+									if cond == nil {
+										cond = eq
+									} else {
+										cond = &ast.BinaryExpr{X: cond, Op: token.LOR, Y: eq}
+									}
+								}
+								is := &ast.IfStmt{Cond: cond, Body: &ast.BlockStmt{List: cc.Body}}
+								if chain == nil {
+									chain = is
+								} else {
+									last.Else = is
+								}
+								last = is
+							}
+							if !okSw || chain == nil {
+								continue
+							}
+							// the default clause must be last in source order for the chain to be equivalent
+							if deflt != nil {
+								if sw.Body.List[len(sw.Body.List)-1].(*ast.CaseClause).List != nil {
+									continue
+								}
+								last.Else = deflt
+							}
+							blk.List[k] = chain
+							n++
 						}
 					}
 				case "neg-if":
